@@ -81,6 +81,11 @@ def initRows (tol : Rat) (dom rows : Nat) : Option (List Rat) → Except String 
 def tableRow (t : List Rat) (rows dom r : Nat) : List Rat :=
   (List.range dom).map (fun i => t.getD (r + i * rows) 0)
 
+/-- the BIF `table` attribute that denotes the conditional probability function `P i c`
+    (`i` = value of the child, `c` = parent combination): child value slowest, parents in product order -/
+def bifTable (P : Nat → List Nat → Rat) (dom : Nat) (pd : List Nat) : List Rat :=
+  (List.range dom).flatMap (fun i => (combos pd).map (fun c => P i c))
+
 /-- `__add_table__` -/
 def addTable (tol : Rat) (dom rows : Nat) (cur : Rows) : Option (List Rat) → Except String Rows
   | none => .ok cur
@@ -215,6 +220,12 @@ def resolveScanned (pdoms : List (List String)) (s : Scanned (List String)) : Sc
     entries := s.entries.map (fun e =>
       ((e.1.zip pdoms).map (fun cd => cd.2.idxOf cd.1) ++ (e.1.drop pdoms.length).map (fun _ => 0), e.2)) }
 
+/-- domain of the j-th declared variable -/
+def pdomOf (p : Partial) (j : Nat) : List String :=
+  match p[j]? with
+  | some (_, d, _) => d
+  | none => []
+
 /-- `__add_cpt__` -/
 def addCpt (tol : Rat) (p : Partial) (c : RawCpt) : Except String Partial :=
   match findVar p c.child with
@@ -231,7 +242,7 @@ def addCpt (tol : Rat) (p : Partial) (c : RawCpt) : Except String Partial :=
           match scanItems c.items {} with
           | .error m => .error m
           | .ok s =>
-            let pdoms := ps.map (fun j => match p[j]? with | some (_, d, _) => d | none => [])
+            let pdoms := ps.map (pdomOf p)
             match assembleCpt tol dm.length (pdoms.map List.length) (resolveScanned pdoms s) with
             | .error m => .error m
             | .ok rows => .ok (p.set i (nm, dm, some (ps, rows)))
@@ -292,6 +303,21 @@ def topoOrder (net : Net) : Option (List Nat) :=
   let out := kahn net (net.length + 1) srcs cnt []
   if out.length = net.length then some out else none
 
+/-- decidable validation of an order: a permutation of the variables in which parents come first -/
+def topoOK (net : Net) : List Nat → List Nat → Bool
+  | _, [] => true
+  | done, v :: vs =>
+    (match net[v]? with
+     | some var => var.parents.all (fun p => done.contains p)
+     | none => false) && topoOK net (v :: done) vs
+
+def nodupB : List Nat → Bool
+  | [] => true
+  | x :: xs => !xs.contains x && nodupB xs
+
+def isTopo (net : Net) (o : List Nat) : Bool :=
+  o.length == net.length && o.all (fun v => decide (v < net.length)) && nodupB o && topoOK net [] o
+
 /-! ## specification: the joint law by enumeration -/
 
 abbrev St := Nat → Nat
@@ -343,22 +369,19 @@ def drawProb (row : List Rat) (dom i : Nat) : Rat :=
   else if i + 1 = dom then 1 - ((List.range (dom - 1)).map (fun j => row.getD j 0)).sum
   else 0
 
-/-- a variable with parents and a single parent combination is generated as `if cond: x = … end`
-    without `else`: nothing is assigned when the condition fails -/
-def noAssign (net : Net) (var : Var) (σ : St) : Bool :=
-  !var.parents.isEmpty && numRows (parentDoms net var) == 1 && (combos (parentDoms net var)).idxOf (var.parents.map σ) != 0
-
 def stepProb (net : Net) (v : Nat) (σ : St) (i : Nat) : Rat :=
   match net[v]? with
   | none => 0
   | some var => drawProb (var.cpt.getD (branchRow (parentDoms net var) (var.parents.map σ)) []) var.dom i
 
+/-- one generated statement block.  (A variable with parents but a single parent combination is emitted as
+    `if cond: x = … end` without `else`; all variables start at 0 and only ever receive domain positions, so a
+    parent with a one-element domain always holds 0 and `cond` is true in every reachable state — the model
+    therefore treats that block like the others.) -/
 def step (net : Net) (v : Nat) (σ : St) : List (St × Rat) :=
   match net[v]? with
   | none => [(σ, 1)]
-  | some var =>
-    if noAssign net var σ then [(σ, 1)]
-    else (List.range var.dom).map (fun i => (upd σ v i, stepProb net v σ i))
+  | some var => (List.range var.dom).map (fun i => (upd σ v i, stepProb net v σ i))
 
 def genLawAux (net : Net) : List Nat → St → List (St × Rat)
   | [], σ => [(σ, 1)]
